@@ -193,6 +193,28 @@ fn mutants(g: &mut Rng, base: &RawRequest, secrets: &HashMap<String, String>) ->
     out.push(("date/garbage".into(), change("X-Amz-Date", &|_| "20250101".into()), None));
     out.push(("credential/other-known-key".into(), change("X-Amz-Credential", &|v| if v.starts_with(AK) { v.replacen(AK, AK2, 1) } else { v.replacen(AK2, AK, 1) }), None));
     out.push(("credential/unknown-key".into(), change("X-Amz-Credential", &|v| format!("AKIDUNKNOWN{}", &v[v.find("%2F").unwrap_or(0)..])), None));
+    // an unknown key whose signature is CORRECT for a secret an attacker can guess
+    {
+        let r0 = change("X-Amz-Credential", &|v| format!("AKIDUNKNOWN{}", &v[v.find("%2F").unwrap_or(0)..]));
+        let h1 = http1_form(&r0);
+        if let Some((pairs, _)) = parse_query(split_uri(&h1.uri).1.unwrap_or("")) {
+            let get = |n: &str| pairs.iter().find(|(k, _)| k == n).map(|(_, v)| v.clone());
+            if let (Some(cred), Some(date), Some(sh)) = (get("X-Amz-Credential"), get("X-Amz-Date"), get("X-Amz-SignedHeaders")) {
+                let c: Vec<&str> = cred.split('/').collect();
+                if c.len() == 5 {
+                    let signed: Vec<String> = sh.split(';').map(str::to_owned).collect();
+                    for (name, sec) in [("empty-secret", ""), ("own-name-as-secret", "AKIDUNKNOWN"), ("scheme-prefix-as-secret", "AWS4")] {
+                        let p = V4Params { access_key: c[0].into(), secret: sec.into(), amz_date: date.clone(), region: c[2].into(), service: c[3].into() };
+                        if let Some(sig) = v4_presign_signature(&h1, &p, &signed) {
+                            let mut r = r0.clone();
+                            set_query(&mut r, |v| v.into_iter().map(|x| if x.starts_with("X-Amz-Signature=") { format!("X-Amz-Signature={sig}") } else { x }).collect());
+                            out.push((format!("credential/unknown-key-signed-with/{name}"), r, None));
+                        }
+                    }
+                }
+            }
+        }
+    }
     out.push(("credential/scope-region".into(), change("X-Amz-Credential", &|v| {
         let p: Vec<&str> = v.split("%2F").collect();
         if p.len() == 5 { format!("{}%2F{}%2Fother-region%2F{}%2F{}", p[0], p[1], p[3], p[4]) } else { v.to_owned() }
